@@ -25,6 +25,20 @@ theorem gen_bareIgnoreCode : Gen.bareIgnoreCode = "bare_ignore" := by decide
 /-- `_lines()` splits at `\\r\\n`, `\\r`, `\\n` — what `pyLines` (via `isReBreak` and the `afterCR` state) models. -/
 theorem gen_linesSplitRegex : Gen.linesSplitRegex = "\\r\\n|\\r|\\n" := by decide
 
+/-- **options_state_registered.** Everything in `pyanalyze/options.py` that could carry state from one
+lookup (one module, one option) to the next — mutable containers held by a class, caching decorators,
+in-place mutation sites, `dataclasses.replace` copies — is known and harmless for the model
+(`isErrorCodeEnabled` is a pure function of the instance table, `runModules` shares nothing):
+the class registry filled at import time, the `lru_cache` on the constant set of code names, the
+local `by_name` table of `from_option_list`, and a class-level default. A new memo dict, a new cache
+or a new in-place update changes the regenerated list and breaks this obligation. -/
+theorem options_state_registered : Gen.optionsState =
+    ["cache get_all_error_codes @lru_cache",
+     "mutate ConfigOption.__init_subclass__: cls.registry[...] =",
+     "mutate Options.from_option_list: by_name[].append()",
+     "state ConfigOption.registry",
+     "state StringSequenceOption.default_value"] := by decide
+
 /-! ## 1. `showError` through pure functions of the call -/
 
 /-- What the per-line part of `show_error` decides for a call, as a function of file and call only. -/
